@@ -35,6 +35,10 @@ def strategy(shard):
     def case(draw):
         ncand = draw(st.integers(2, 6))
         cands = list(sa.CANDS[:ncand])
+        if draw(st.integers(0, 5)) == 0:
+            # names are labels: one of them carries a trailing blank (a padded export column), identically everywhere
+            k = draw(st.integers(0, ncand - 1))
+            cands[k] = cands[k] + " "
         if draw(st.integers(0, 4)) == 0:
             # the write-in line is a candidate of the contest (the Hart reader lists it under this name): a contestant like any other
             cands[draw(st.integers(0, ncand - 1))] = "WRITE_IN"
